@@ -803,7 +803,7 @@ def jobs(tier):
                               "block_types": C_TYPES, "name_generator_counters_start_at": [0, 8, 9], "S": "every ordered selection of the targets",
                               "sequences": "control insertion followed by a second insertion behind the new head"}, budget_s=900))
     if tier == "thorough":
-        js.append(Job("B-N4-restructured-levels", lambda: space_b(4), harness_b, bounds={"space": "B (S5)", "blocks": 4, "stages": [2, 3], "level_size<=": 6}, budget_s=3000))
+        js.append(Job("B-N4-restructured-levels", lambda: space_b(4), harness_b, bounds={"space": "B (S5)", "blocks": 4, "stages": [2, 3], "level_size<=": 6}, budget_s=3000, required=False))
     return js
 
 
